@@ -159,7 +159,7 @@ def run_bounded(prop, tier, seed, budget_s, extra_cases=()):
         # deeper exploration: the seeded part of every case family is redrawn for further seeds (exhaustive families repeat
         # and are dropped as duplicates)
         seen = {canon(c) for c in gen}
-        for extra in range(1, int(os.environ.get("VERIF_THOROUGH_SEEDS", "4"))):
+        for extra in range(1, int(os.environ.get("VERIF_THOROUGH_SEEDS", "8"))):
             for c in mod.cases(tier, seed + 1000 * extra):
                 k = canon(c)
                 if k not in seen:
